@@ -766,3 +766,11 @@ func Note(format string, args ...interface{}) {
 
 // Sched reports whether a scheduler is installed (including while it is tearing down).
 func Sched() bool { return s_ != nil }
+
+// SetStepHook installs a function that runs (outside the schedule, in the running thread) after
+// every granted operation of the current execution.
+func SetStepHook(f func()) {
+	if s := s_; s != nil {
+		s.stepHook = f
+	}
+}
